@@ -15,7 +15,10 @@ NOTE = ["domain: reserved size >= 48 (smaller sizes: the record is written unpad
         "intelhex writer/reader for the tool's own files is not modelled: every file is read back with IHex.read; SHA-256 and SHA-1 of the "
         "driver are compared with hashlib through the byte-for-byte comparison of each case"]
 
-NAMES = ["nordicsemi.com", "nRF54H20_sample_root", "", "a", "é中\U0001f600", "x" * 300, "test_vendor", "cls with space"]
+NAMES = ["nordicsemi.com", "nRF54H20_sample_root", "", "a", "é中\U0001f600", "x" * 300, "test_vendor", "cls with space",
+         # a name is a name, whatever it looks like: text UUIDs in every spelling, hex digests / serial numbers, numbers
+         "7d9f1e2a-4b3c-4d5e-8f60-a1b2c3d4e5f6", "41516ed3046dd96f91a47b2835984dda", "urn:uuid:7d9f1e2a-4b3c-4d5e-8f60-a1b2c3d4e5f6",
+         "{7d9f1e2a-4b3c-4d5e-8f60-a1b2c3d4e5f6}", "6BA7B8109DAD11D180B400C04FD430C8", "0x10", "0100", " padded ", "None"]
 
 
 def impl_generate(vendor, cls, address, size, dp, iu, sv, d):
@@ -71,6 +74,10 @@ def gen_merge(tier, rng):
     for k in range(n):
         address = rng.choice([0x0E1E9000, 0xFF00, 0x10000 - 96, 0x2000, 0, 0, 0xFFFFF000])      # an area at address 0 is an area
         size = rng.choice([96, 144, 240, 384, 1024])
+        if k % 3 == 2:
+            # an area ends where it ends: sizes and addresses that are no multiple of a word (the digest follows the last byte of the area)
+            size = rng.choice([97, 98, 99, 150, 241, 49, 145])
+            address = rng.choice([0x0E1E9000, 0x2001, 0xFF02, 0x10000 - 99, 3, 0x2000])
         recs = []
         nrec = rng.randint(0, 8)
         mode = rng.choice(["inside", "inside", "inside", "border", "outside", "overlap"])
